@@ -1,6 +1,7 @@
 import Stackage.Basic
 import Stackage.Gen.Consts
 import Stackage.Gen.Funcs
+import Stackage.Model.EV
 
 /-!
 # Values, configurations, stacks and conditions (the shared model universe)
@@ -63,6 +64,7 @@ inductive Leaf where
   | num (ty : Nat) (text : Text)                   -- any other known numeric primitive, with the text Go prints
   | stringer (id : Nat) (text : Text) (zero : Bool) -- non-primitive with a String() method (skipped by getStringer when zero)
   | opaque (cls : Nat) (id : Nat)                  -- anything else (func, chan, struct, map, typed nil, ...), by identity
+  | ev (e : EV)                                    -- a value described as far as `reflect` sees it (C05, see Model/EV.lean)
   deriving DecidableEq, Repr, Inhabited
 
 inductive Val where
